@@ -1187,6 +1187,19 @@ func genClose(r *rand.Rand, id string, size int, total int) []string {
 	}
 	g.add("closestore %d", p)
 	g.add("afterclose %d", p)
+	if g.pick(4) == 0 {
+		g.add("leveldrop %d", q)
+	}
+	if g.pick(2) == 0 {
+		// the same instance opens the database again; Close is then called once more on the old
+		// handle: the new handle must stay registered (heads sent to the instance still reach it)
+		g.add("reopenstore %d", p)
+		g.add("obs %d", p)
+		g.add("staleclose %d", p)
+		write(q)
+		g.add("exchange %d %d", q, p)
+		g.add("obs %d", p)
+	}
 	g.add("restart %d", p)
 	g.add("obs %d", p)
 	g.add("final18 %d", p)
